@@ -103,6 +103,10 @@ def modelSideOf (k : Fmt) (preload : Bool) (tags cases : List String) (b : Bound
 
 def modelSide (l : Line) (preload : Bool) : Spec.C14.Side := modelSideOf l.kind preload l.tags l.cases l.b l.cap
 
+/-- a cell whose context is cancelled BEFORE Run is called (`pre=1`; outside the property, compared with the model) -/
+def modelSidePre (k : Fmt) (preload : Bool) (tags cases : List String) (b : Bounds) : Spec.C14.Side :=
+  if constructs k tags.length then sideOf 0 (run k preload tags cases b (some 0)) else constructFailed
+
 /-- the model's observation of a cell -/
 def modelObsOf (k : Fmt) (tags cases : List String) (b : Bounds) (cap : Nat) : Spec.C14.Obs :=
   { s := modelSideOf k false tags cases b cap, p := modelSideOf k true tags cases b cap, tagsOk := true }
@@ -140,10 +144,19 @@ def handle : Handler := fun input impl =>
     let ikv := parseKV impl
     -- the layout of the file (`junk`), the source (`src=uris`) and the construction route (`via=yaml`) are invisible
     -- to the model: they must not change anything
+    if getS (parseKV input) "pre" == "1" then
+      -- not a configuration of the property: never a failure.  Where the implementation does what the model says the
+      -- cell counts as a validated trace; where it does not (a tree that treats a pre-cancelled context differently)
+      -- the cell is skipped.
+      let m := s!"{showSide "s" (modelSidePre l.kind false l.tags l.cases l.b) "spinning"} {showSide "p" (modelSidePre l.kind true l.tags l.cases l.b) "spinning"} tagsok=1 reqok=1 s.hd=- p.hd=-"
+      if m == impl then (m, "ok") else ("-", "skip:precancelled-context-differs-from-model")
+    else
     if l.cap == 0 then ("-", "skip:no-cap") else
     if l.tags.isEmpty && getS (parseKV input) "src" == "uris" then ("-", "skip:empty-uris-list-is-no-source") else
     if !Spec.C14.noMatch l.cell && Spec.C14.inconclusive l.cell then ("-", "skip:cap-equals-count") else
     if !l.hdrInModel then ("-", "skip:header-declarations-outside-the-model") else
+    if (getS ikv "s.run").startsWith "infra" || (getS ikv "p.run").startsWith "infra" then
+      ("-", "skip:harness-child-could-not-run") else
     match parseSide ikv "s", parseSide ikv "p" with
     | some s, some p =>
       (modelObs l ikv, Spec.C14.judgeH l.cell (ehdrOf l.kind l.src)
